@@ -245,11 +245,17 @@ func (u *Unit) parseAssign(env *Env, a string) assignLoc {
 			for k := 0; k < st.NumFields(); k++ {
 				hs = append(hs, u.fieldHeapName(t, st.Field(k).Name()))
 				ss = append(ss, arrSort(SInt, u.ty.sortOf(st.Field(k).Type())))
+				if isPointerLike(st.Field(k).Type()) {
+					u.refHeaps[u.fieldHeapName(t, st.Field(k).Name())] = true
+				}
 			}
 			return assignLoc{kind: kind, heap: hs, sorts: ss}
 		}
 		for k := 0; k < st.NumFields(); k++ {
 			if st.Field(k).Name() == fname {
+				if isPointerLike(st.Field(k).Type()) {
+					u.refHeaps[u.fieldHeapName(t, fname)] = true
+				}
 				return assignLoc{kind: kind, heap: []string{u.fieldHeapName(t, fname)}, sorts: []Sort{arrSort(SInt, u.ty.sortOf(st.Field(k).Type()))}}
 			}
 		}
@@ -341,6 +347,18 @@ func (u *Unit) applyFrameHavoc(st *State, env *Env, con *Contract) {
 	na := u.s.fresh("alloc", SInt)
 	u.s.assume(implies(st.reach, sx(">=", na, oldAlloc)))
 	st.heaps["alloc"] = na
+	// references stored in the havocked heaps designate objects that exist after the call
+	for _, a := range con.Assigns {
+		loc := u.parseAssign(env, a)
+		if loc.kind != "freshfield" && loc.kind != "allfield" {
+			continue
+		}
+		for i, hn := range loc.heap {
+			if h, ok := st.heaps[hn]; ok {
+				u.heapWellFormed(hn, h, loc.sorts[i], na, st.reach, false)
+			}
+		}
+	}
 }
 
 func (u *Unit) applyContract(st *State, con *Contract, args []TV, instr ssa.Instruction, key string) []Term {
